@@ -77,6 +77,9 @@ def work(args):
     for ri, rm in zip(K.impl, K.model):
         out["n"] += 1
         out["dist"][len(ri["input"]) // 2 if ri["input"] != "-" else 0] += 1
+        if ri["res"] == "BUDGET":
+            out["cells"]["budget_exhausted_not_compared"] += 1      # terminating but very expensive run (exponential backtracking)
+            continue
         if rm["res"] in ("OOF", "ERR") or ri["res"] == "RUNAWAY":
             out["cells"]["nonterminating"] += 1
             if not (rm["res"] == "OOF" and ri["res"] == "RUNAWAY"):
